@@ -232,6 +232,8 @@ type Case struct {
 	Docs   []Doc      `json:"docs"`
 	Seed   uint64     `json:"seed"`   // world seed
 	Worlds int        `json:"worlds"` // number of resolver worlds per operation
+	// WorldIdx, when set, lists the worlds to run instead of 0..Worlds-1 (used by shrinking).
+	WorldIdx []int `json:"world_idx,omitempty"`
 }
 
 func renderSels(b *strings.Builder, sels []Sel) {
